@@ -122,7 +122,7 @@ func (b BV) String() string {
 }
 
 func concBV(w int, v uint64) BV { return BV{W: w, C: v & mask(w)} }
-func concBool(b bool) Bool       { return Bool{C: b} }
+func concBool(b bool) Bool      { return Bool{C: b} }
 
 func strFromGo(s string) Str {
 	b := make([]BV, len(s))
